@@ -184,6 +184,7 @@ class SymEx:
         self.depth = 0
         self.roundings = 0
         self.reads_undef = []
+        self.intermediates = []
         self.narrowings = []      # (to, from) of every precision-losing cast of a non-constant value
         self.narrow_bad = []      # those that narrow below the result type of the function under contract
         self.pc = []             # path condition stack (bool terms)
@@ -673,6 +674,8 @@ class SymEx:
                     raise Unsupported('symbolic integer division')
                 self.need(cmp('!=', b, num(0)), 'divisor non-zero')
             r = mk(op, a, b)
+            if t[0] == 'f' and not is_num(r):
+                self.intermediates.append(r)      # every non-constant floating result, in evaluation order (range analysis)
             if self.mode == 'NOISY' and t[0] == 'f':
                 if is_num(r):
                     return num(self.rnd(r[1], t))     # constant sub-expression: exact IEEE emulation
